@@ -315,12 +315,15 @@ func (env *ExecEnv) expandParam(fields []*field, pe *ast.ParamExp, mode ExpMode)
 				var n int
 				if pe.Name.Value == "@" {
 					n = len(a)
-				} else {
+				} else if len(a) != 0 {
 					n = utf8.RuneCountInString(a[0])
 				}
 				fields[len(fields)-1].join(strconv.Itoa(n), quote)
-			case !set && env.Opts&NoUnset != 0:
+			case env.Opts&NoUnset != 0:
 				goto Unset
+			default:
+				// the length of an unset parameter is 0
+				fields[len(fields)-1].join("0", quote)
 			}
 		}
 	default:
